@@ -210,14 +210,14 @@ void h_bs_read_exactly(void)
 	uint8_t *out = NULL;
 	cjet_ssize_t r = get_read_ptr(&bs, ctx, &out);
 	if (r > 0) {
+		__CPROVER_assert(ctx.num <= CONFIG_MAX_MESSAGE_SIZE, "C09.exact.oversized-request-never-succeeds");
 		__CPROVER_assert((size_t)r == ctx.num, "C09.exact.returns-exactly-the-requested-count");
 		verif_consumed += ctx.num;
 		__CPROVER_assume(j < ctx.num);
 		__CPROVER_assert(out[j] == verif_in[consumed0 + j], "C09.exact.hands-out-the-next-stream-bytes-whatever-the-chunking");
 	} else {
 		__CPROVER_assert(r == BS_PEER_CLOSED || r == BS_IO_WOULD_BLOCK || r == BS_IO_ERROR || r == BS_IO_TOOMUCHDATA, "C09.exact.result-code");
-		__CPROVER_assert((r == BS_IO_TOOMUCHDATA) == (ctx.num > CONFIG_MAX_MESSAGE_SIZE) || r != BS_IO_TOOMUCHDATA || ctx.num > CONFIG_MAX_MESSAGE_SIZE, "C09.exact.too-much-only-above-the-buffer-size");
-		__CPROVER_assert(ctx.num <= CONFIG_MAX_MESSAGE_SIZE || r == BS_IO_TOOMUCHDATA || r == BS_PEER_CLOSED || r == BS_IO_ERROR || r == BS_IO_WOULD_BLOCK, "C09.exact.oversized-request-never-succeeds");
+		__CPROVER_assert(r != BS_IO_TOOMUCHDATA || ctx.num > CONFIG_MAX_MESSAGE_SIZE, "C09.exact.too-much-only-above-the-buffer-size");
 	}
 	__CPROVER_assert(rd_inv(&bs, gi), "C09.exact.buffer-still-mirrors-the-stream");
 	VERIF_COVER(r > 0 && ctx.num == CONFIG_MAX_MESSAGE_SIZE && consumed0 > 1, "full-buffer message after compaction");
@@ -258,6 +258,8 @@ void h_bs_read_until(void)
 		__CPROVER_assert(!(out[e] == '\r' && out[e + 1] == '\n'), "C09.until.stops-at-the-first-delimiter");
 	} else {
 		__CPROVER_assert(r == BS_PEER_CLOSED || r == BS_IO_WOULD_BLOCK || r == BS_IO_ERROR || r == BS_IO_TOOMUCHDATA, "C09.until.result-code");
+		/* a line is refused as too long only when the whole read buffer is filled with unread bytes (and holds no delimiter) */
+		__CPROVER_assert(r != BS_IO_TOOMUCHDATA || verif_delivered - verif_consumed == CONFIG_MAX_MESSAGE_SIZE, "C09.until.too-much-only-when-the-buffer-is-full");
 	}
 	__CPROVER_assert(rd_inv(&bs, gi), "C09.until.buffer-still-mirrors-the-stream");
 	VERIF_COVER(r == 3 && consumed0 > 1, "line of 3 bytes");
